@@ -56,4 +56,7 @@ func init() {
 		Old: "\tcase <-time.After(sv.timeout):\n\t\treturn false\n", New: "", Expect: "timeout-arm"})
 	seed(Seed{Name: "timeout-reports-success", Prop: "C07", Rule: "LS-TIMED", File: lsh,
 		Old: "\tcase <-time.After(sv.timeout):\n\t\treturn false\n", New: "\tcase <-time.After(sv.timeout):\n\t\treturn true\n", Expect: "acquireWithTimeout"})
+	seed(Seed{Name: "begin-reset-only-if-not-begun", Prop: "C06", Rule: "MB-PUBLISH", File: "distsys/resources/tcpmailboxes.go",
+		Old: "\t\tcase tcpNetworkBegin:\n\t\t\tlocalBuffer = nil\n\t\t\thasBegun = true\n",
+		New: "\t\tcase tcpNetworkBegin:\n\t\t\tif !hasBegun {\n\t\t\t\tlocalBuffer = nil\n\t\t\t\thasBegun = true\n\t\t\t}\n", Expect: "buffer-reset-on-every-begin"})
 }
